@@ -85,6 +85,11 @@ def retarget(curve):
                 if hasattr(m, k):
                     saved_consts[(m, k)] = getattr(m, k)
                     setattr(m, k, v)
+            # module-level values derived from the constants at import time: the generator as a pair
+            for k, v in list(vars(m).items()):
+                if isinstance(v, (tuple, list)) and len(v) == 2 and tuple(v) == (SECP["gx"], SECP["gy"]) and (m, k) not in saved_consts:
+                    saved_consts[(m, k)] = v
+                    setattr(m, k, type(v)((curve["gx"], curve["gy"])))
         yield
     finally:
         for fn, d in saved_defaults.items():
@@ -159,3 +164,120 @@ def rec_point_result(enc, fn, *a):
         except Exception:  # noqa
             return {"ok": False, "res": [], "exc": "bad-result-type"}
     return {"ok": False, "res": [], "exc": r["err"]}
+
+
+# --- does the implementation follow the retarget at all? --------------------------------------------------------------
+def h_ecdsa_verify(c, r, s, Q, z):
+    n = c["n"]
+    if not (0 < r < n and 0 < s < n) or Q is None:
+        return False
+    w = pow(s, -1, n)
+    R = h_add(c, h_mul(c, z * w % n, h_G(c)), h_mul(c, r * w % n, Q))
+    return R is not None and R[0] % n == r
+
+
+def h_ecdsa_sig(c, d, z, k):
+    n = c["n"]
+    r = h_mul(c, k, h_G(c))[0] % n
+    return r, pow(k, -1, n) * (z + r * d) % n
+
+
+def retarget_applies(curve, probe, ctx=None, what=""):
+    """The small-curve stages rest on an assumption about the implementation (not on the property): that it takes its
+    curve constants from the default arguments / module attributes which retarget() rebinds.  A correct implementation
+    with private constants (precomputed tables of secp256k1 multiples, its own field arithmetic, a hard-wired square
+    root exponent) cannot be retargeted, and its garbage on a 43-element field says nothing about the property.
+    probe(c) -> list of (kind, callable), each callable True when one of the SIMPLEST operations gives what curve c demands (inputs
+    built with the harness arithmetic; a dozen different operands, so that an implementation that follows the retarget
+    but is wrong on SOME inputs - e.g. only where x(R) >= n - still passes many of them).  Decision:
+      >= 1/4 of the probes of every kind pass under retarget -> the code follows the retarget: the stage applies;
+      some kind fails, and ALL pass on secp256k1 un-retargeted -> right at full size, does not follow the rebound constants:
+                                                             the small-curve replay is skipped for it (noted in the
+                                                             evidence; the full-size stages judge it);
+      otherwise                                            -> broken code: the stage applies and reports it."""
+    def run(c):
+        out = {}
+        for kind, f in probe(c):
+            try:
+                ok = bool(f())
+            except Exception:  # noqa
+                ok = False
+            out.setdefault(kind, []).append(ok)
+        return out
+    with retarget(curve):
+        small = run(curve)
+    # every KIND of operation must follow the retarget (a module-level copy of one constant breaks one kind only)
+    if all(4 * sum(v) >= len(v) for v in small.values()):
+        return True
+    if not all(all(v) for v in run(SECP).values()):
+        return True
+    if ctx is not None:
+        note = {"curve": curve["name"], "what": what, "probes_passed_under_retarget": {k: f"{sum(v)}/{len(v)}" for k, v in small.items()},
+                "reason": "the implementation is right on secp256k1 for the probe operations but does not follow the rebound curve "
+                          "constants; small-curve replay not applicable to it (full-size stages judge it)"}
+        ctx.cov.setdefault("small_curve_replay_skipped", []).append(note)
+        print(f"NOTE property={ctx.prop} small-curve replay on {curve['name']} skipped: implementation does not follow the rebound curve constants ({what})")
+    return False
+
+
+def _b32(v):
+    return v.to_bytes(32, "big")
+
+
+def probe_group(c):
+    import bits.ecmath as em
+    G = h_G(c)
+    fs = []
+    for k in range(1, 7):
+        fs.append(("smul", lambda k=k: tuple(em.point_scalar_mul(k, G)) == h_mul(c, k, G)))
+        fs.append(("padd", lambda k=k: tuple(em.point_add(G, h_mul(c, k + 1, G))) == h_mul(c, k + 2, G)))
+    return fs
+
+
+_DKZ = [(2, 3, 5), (3, 5, 9), (5, 2, 1), (7, 4, 11), (4, 7, 2), (6, 9, 13), (9, 6, 4), (11, 8, 17), (8, 11, 3), (10, 13, 6), (13, 10, 8), (12, 5, 7)]
+
+
+def probe_verify(c):
+    import bits.ecmath as em
+
+    def one(d, k, z):
+        r, s = h_ecdsa_sig(c, d, z, k)
+        return bool(r and s) and em.verify(r, s, h_mul(c, d, h_G(c)), z) is True
+    return [("verify", lambda t=t: one(*t)) for t in _DKZ]
+
+
+def probe_sign(c):
+    import bits.ecmath as em
+
+    def one(d, k, z):
+        with scripted_rng([k] + [((k + 3 * i) % (c["n"] - 1)) + 1 for i in range(1, 40)]):
+            r, s = em.sign(d, z)
+        return h_ecdsa_verify(c, r, s, h_mul(c, d, h_G(c)), z)
+    return [("sign", lambda t=t: one(*t)) for t in _DKZ]
+
+
+def probe_schnorr(c):
+    import bits
+    from bits.bips import bip340
+
+    def pub(d):
+        return bytes(bip340.pubkey(bits.compute_point(_b32(d)))) == _b32(h_mul(c, d, h_G(c))[0])
+
+    def sv(d):
+        pk = bip340.pubkey(bits.compute_point(_b32(d)))
+        r = bip340.verify(pk, b"probe", bip340.sign(_b32(d), b"probe", bytes(32)))
+        return r is True or r == "OK"
+    return [("pub", lambda d=d: pub(d)) for d in range(1, 7)] + [("sign-verify", lambda d=d: sv(d)) for d in range(1, 7)]
+
+
+def probe_sec1(c):
+    import bits
+    import bits.utils as bu
+
+    def dec(d):
+        P = h_mul(c, d, h_G(c))
+        return tuple(bu.point(bytes([2 + (P[1] & 1)]) + _b32(P[0]))) == P
+
+    def cp(d):
+        return tuple(bits.compute_point(_b32(d))) == h_mul(c, d, h_G(c))
+    return [("sec1", lambda d=d: dec(d)) for d in range(1, 7)] + [("compute_point", lambda d=d: cp(d)) for d in range(1, 7)]
